@@ -178,6 +178,17 @@ def collect(repo):
                         facts["cleanup_seq"].setdefault(fn + ":" + fname, []).append([cn, names])
                 if n.get("kind") == "GCCAsmStmt":
                     facts["asm"].append({"file": fn, "func": fname})
+                # every call `*_ctr_increment(counter, <column>, <increment>)` of the vector CTR files: the column must be a
+                # literal; the increment is a literal or the context's `pending` field (rendered as -1)
+                if n.get("kind") == "CallExpr" and (callee_name(n) or "").endswith("_ctr_increment"):
+                    args = n["inner"][1:]
+                    def lit(x):
+                        while x.get("kind") in ("ImplicitCastExpr", "ParenExpr", "CStyleCastExpr") and x.get("inner"): x = x["inner"][0]
+                        if x.get("kind") == "IntegerLiteral": return int(x["value"])
+                        if x.get("kind") == "MemberExpr" and x.get("name") == "pending": return -1
+                        return None
+                    col, inc = (lit(args[1]), lit(args[2])) if len(args) == 3 else (None, None)
+                    facts.setdefault("lane_incs", {}).setdefault(fn + ":" + fname, []).append([col if col is not None else 999, inc if inc is not None else -2])
             if not name.startswith("__") and (name.startswith("skinny") or name.startswith("mantis") or name.startswith("_skinny") or name.startswith("_mantis")):
                 walk(b, visit)
                 if f.get("storageClass") != "static" and not f.get("inline") and fn.replace(".c", "") in ("skinny128-cipher", "skinny64-cipher", "mantis-cipher", "skinny128-ctr", "skinny64-ctr", "mantis-ctr", "skinny128-parallel", "skinny64-parallel", "mantis-parallel"):
@@ -296,6 +307,9 @@ def to_lean(facts):
     L.append("/-- per context type, in the order s128 generic/vec128/vec256, s64 generic/vec128, mantis generic/vec128, parallel s128/s64/mantis:")
     L.append("(bytes requested at init, bytes cleansed in cleanup, cleanup is exactly `skinny_cleanse(ctx, n); free(..)`) -/")
     L.append("def ctxTable : List (Nat × Nat × Bool) := [" + ", ".join("(%d, %d, %s)" % (a, c, "true" if o else "false") for a, c, o in ctx_table(facts)) + "]")
+    L.append("/-- the lane-increment calls of the vector CTR files in source order: (file:function, [(column, increment)]); increment -1 is")
+    L.append("the context's `pending` field, -2 / column 999 anything else -/")
+    L.append("def laneIncs : List (String × List (Nat × Int)) := [" + ", ".join('("%s", [%s])' % (k, ", ".join("(%d, %d)" % (c, i) for c, i in v)) for k, v in sorted(facts.get("lane_incs", {}).items())) + "]")
     L.append("\nend SkinnyVerif.Gen.Facts\n")
     return "\n".join(L)
 
